@@ -347,9 +347,12 @@ const e2eNTPPort = 45123
 // e2eFetch runs the real Fetcher against the real NTS-KE server (TLS accept loop,
 // handleKeyExchangeTLS, newNTSKEMsg) on loopback; the cookies are opened with the
 // server's key to observe the keys the server holds.
-func e2eFetch(ntpPort, clen int) string {
+func e2eFetch(ntpPort, clen int, overQUIC bool) string {
 	if ntpPort != e2eNTPPort {
 		panic("bad-op")
+	}
+	if overQUIC {
+		return e2eCheck(e2eFetcherQUIC(), e2eQProvider, clen)
 	}
 	e2eOnce.Do(func() {
 		cert := selfSigned()
@@ -366,6 +369,10 @@ func e2eFetch(ntpPort, clen int) string {
 	f.Log = nolog
 	f.TLSConfig = tls.Config{InsecureSkipVerify: true, ServerName: "127.0.0.1", MinVersion: tls.VersionTLS13}
 	f.Port = e2ePort
+	return e2eCheck(f, e2eProvider, clen)
+}
+
+func e2eCheck(f *ntske.Fetcher, prov *ntske.Provider, clen int) string {
 	ctx, cancel := context.WithTimeout(context.Background(), 10*time.Second)
 	defer cancel()
 	d, err := f.FetchData(ctx)
@@ -382,7 +389,7 @@ func e2eFetch(ntpPort, clen int) string {
 			agree = "keys=cookie-undecodable"
 			break
 		}
-		k, ok := e2eProvider.Get(int(ec.ID))
+		k, ok := prov.Get(int(ec.ID))
 		if !ok {
 			agree = "keys=cookie-key-unknown"
 			break
